@@ -881,3 +881,101 @@ Proof.
   apply write_leaves_ok. rewrite Forall_forall. intros x Hx.
   eapply Permutation_in in Hx; [|exact Q]. apply in_seq in Hx. lia.
 Qed.
+
+(* ================= whole-algorithm schedule independence at exact arithmetic *)
+
+Lemma gather_nonneg (wq : list Q) perm wl :
+  Forall (Qle 0%Q) wq -> gather QA wq perm = Ok wl -> Forall (Qle 0%Q) wl.
+Proof.
+  intros Hw. revert wl. induction perm as [|i t IH]; intros wl H; cbn [gather] in H.
+  - inversion H; constructor.
+  - destr_match_in H E; [|discriminate]. apply bind_ok in H as [r [Hr H]]. inversion H; subst.
+    constructor; [|apply IH; exact Hr]. rewrite Forall_forall in Hw. apply Hw. eapply nth_opt_In; exact E.
+Qed.
+
+(* one call of compute_split_positions, gather and thresholds included *)
+Lemma csp_blocks_irrelevant (wq : list Q) perm (mods : list Q) bs1 bs2 :
+  Forall (Qle 0%Q) wq -> Forall (Qle 0%Q) mods ->
+  csp QA wq perm mods bs1 = csp QA wq perm mods bs2.
+Proof.
+  intros Hw Hm. unfold csp.
+  match goal with |- context [match ?g with _ => _ end] => destruct g as [init|] eqn:Esl end; [|reflexivity].
+  destruct (split_last_app _ _ Esl) as [z Emods]. rewrite Emods in Hm. apply Forall_app in Hm as [Hinit _].
+  match goal with |- context [bind ?g _] => destruct g as [wl| | |] eqn:Eg end; cbn [bind]; try reflexivity.
+  pose proof (gather_nonneg wq perm wl Hw Eg) as Hnn.
+  assert (HW0 : (0 <= sum_list QA wl)%Q) by (rewrite sum_list_Q; apply sumQ_nonneg; exact Hnn).
+  destruct (thresholds_sorted (sum_list QA wl) HW0 init 0%Q Hinit) as [Ts Tp].
+  apply csp_core_blocks_irrelevant; assumption.
+Qed.
+
+Section BlocksIndep.
+  Variable D npts : nat.
+  Variable wq : list Q.
+  Variable sorter : nat -> list nat -> list nat.
+  Variable blk1 blk2 : list nat -> list nat.
+  Hypothesis Hw : Forall (Qle 0%Q) wq.
+
+  Lemma wf_mods_nonneg cparts parts : (1 <= parts)%N ->
+    Forall (Qle 0%Q) (map (fun cp => a_div QA (a_ofN QA cp) (a_ofN QA parts)) cparts).
+  Proof.
+    intros Hparts. rewrite Forall_forall. intros q Hq. apply in_map_iff in Hq as [cp [<- _]].
+    cbn [a_div a_ofN QA]. fold (QN cp) (QN parts).
+    pose proof (QN_ge1 _ Hparts). apply Qle_shift_div_l; [lra|].
+    unfold QN. change 0%Q with (inject_Z 0). rewrite Qmult_0_l. change 0%Q with (inject_Z 0). rewrite <- Zle_Qle. lia.
+  Qed.
+
+  (* the leaves do not depend on the block decompositions *)
+  Lemma mj_rec_blocks : forall (sch : scheme Q) parts d, WfScheme QA sch parts d ->
+    forall a perm, mj_rec QA D npts wq sorter blk1 sch a perm = mj_rec QA D npts wq sorter blk2 sch a perm.
+  Proof.
+    induction sch as [ns mods next IH] using scheme_ind2. intros parts d W a perm.
+    pose proof (Wf_parts_ge1 _ _ _ W) as Hparts.
+    rewrite !mj_rec_eq.
+    inversion W as [mods' next' d'|ns' mods' children parts' d' cparts Hns Hlc HF Hsum Hmods]; subst; [reflexivity|].
+    destruct (ns =? 0)%N; [reflexivity|]. destruct (_ && _); [reflexivity|]. cbv zeta.
+    rewrite (csp_blocks_irrelevant wq (sorter a perm) _ (blk1 (sorter a perm)) (blk2 (sorter a perm)) Hw
+               (wf_mods_nonneg cparts (sumN cparts) Hparts)).
+    destruct (csp QA wq (sorter a perm) _ (blk2 (sorter a perm))) as [pos| | |]; cbn [bind]; try reflexivity.
+    destruct (split_many (sorter a perm) pos 0) as [subs| | |]; cbn [bind]; try reflexivity.
+    specialize (IH children eq_refl). clear - IH HF. revert subs cparts HF.
+    induction children as [|c t IHc]; intros subs cparts HF; destruct subs as [|s subs]; cbn [go_ch]; try reflexivity.
+    inversion IH as [|? ? Pc Pt]; subst. inversion HF as [|? cp ? cps [Wc _] Wt]; subst.
+    destruct (Nat.eqb D 0); [reflexivity|].
+    rewrite (Pc cp d' Wc). destruct (mj_rec QA D npts wq sorter blk2 c (S a mod D) s); cbn [bind]; try reflexivity.
+    rewrite (IHc Pt subs cps Wt). reflexivity.
+  Qed.
+
+  (* same leaf order: the very same result, block decomposition by block decomposition *)
+  Lemma mj_blocks_irrelevant_exact root ord k m p0 :
+    root_ok root -> (1 <= k)%N -> (k < 2 ^ 60)%N -> (1 <= m)%nat ->
+    multi_jagged QA D npts wq sorter blk1 root ord k m p0 = multi_jagged QA D npts wq sorter blk2 root ord k m p0.
+  Proof.
+    intros Hr Hk Hb Hm. unfold multi_jagged.
+    destruct (mj_leaf_count QA root k m Hr Hk Hb Hm) as [sch [E [_ W]]]. rewrite E. cbn [bind].
+    unfold mj_with_scheme. rewrite (mj_rec_blocks sch k m W). reflexivity.
+  Qed.
+End BlocksIndep.
+
+(* mj_sched_indep_exact: everything a rayon schedule can influence in the model
+   — the block decomposition of every scan and the order in which the leaves
+   draw their number — changes nothing but the names of the parts *)
+Theorem mj_sched_indep_exact D npts (wq : list Q) sorter cxlt root blk1 blk2 ord1 ord2 (k : N) (m : nat) p0 p1 p2 :
+  root_ok root -> sorter_ok sorter cxlt ->
+  ord_ok ord1 (N.to_nat k) -> ord_ok ord2 (N.to_nat k) ->
+  (1 <= k)%N -> (k < 2 ^ 60)%N -> (1 <= m)%nat ->
+  Forall (Qle 0%Q) wq -> length p0 = npts ->
+  multi_jagged QA D npts wq sorter blk1 root ord1 k m p0 = Ok p1 ->
+  multi_jagged QA D npts wq sorter blk2 root ord2 k m p0 = Ok p2 ->
+  length p1 = npts /\ length p2 = npts /\
+  forall x y, (x < npts)%nat -> (y < npts)%nat ->
+    (nth_opt p1 x = nth_opt p1 y <-> nth_opt p2 x = nth_opt p2 y).
+Proof.
+  intros Hr Hs O1 O2 Hk Hb Hm Hw Hl H1 H2.
+  rewrite (mj_blocks_irrelevant_exact D npts wq sorter blk1 blk2 Hw root ord1 k m p0 Hr Hk Hb Hm) in H1.
+  pose proof (mj_structure QA D npts wq sorter blk2 cxlt root ord1 k m p0 p1 Hr Hs O1 Hk Hb Hm Hl H1) as [L1 _].
+  pose proof (mj_structure QA D npts wq sorter blk2 cxlt root ord2 k m p0 p2 Hr Hs O2 Hk Hb Hm Hl H2) as [L2 _].
+  split; [exact L1|]. split; [exact L2|].
+  unfold multi_jagged in H1, H2.
+  destruct (mj_leaf_count QA root k m Hr Hk Hb Hm) as [sch [E [_ W]]]. rewrite E in H1, H2. cbn [bind] in H1, H2.
+  exact (mj_ord_indep QA D npts wq sorter blk2 cxlt Hs sch k m ord1 ord2 p0 p1 p2 W O1 O2 Hl H1 H2).
+Qed.
